@@ -1,4 +1,4 @@
-//@unit U14 props=C01,C02,C13,C14 RenetClient::from_channels: channel kinds wired as configured (renet/src/remote_connection.rs)
+//@unit U14 props=C01,C02,C03,C11,C13,C14 RenetClient::from_channels: channel kinds wired as configured (renet/src/remote_connection.rs)
 #![feature(allocator_api)]
 #![allow(unused_imports, dead_code, unused_variables, unused_mut)]
 use vstd::prelude::*;
@@ -107,6 +107,8 @@ impl RenetClient {
                 forall|j: int| 0 <= j < it1.index() ==> send_wired(#[trigger] scfg[j], send_reliable_channels@, send_unreliable_channels@),   // @C01,C02 from_channels.each_send_channel_built_as_configured
                 forall|id: u8| send_reliable_channels@.contains_key(id) || send_unreliable_channels@.contains_key(id)
                     ==> exists|j: int| 0 <= j < it1.index() && (#[trigger] scfg[j]).channel_id == id,
+                forall|id: u8| #[trigger] send_reliable_channels@.contains_key(id) ==> send_reliable_channels@[id].channel_id == id,       // @C03,C11 from_channels.send_channels_filed_under_their_own_id
+                forall|id: u8| #[trigger] send_unreliable_channels@.contains_key(id) ==> send_unreliable_channels@[id].channel_id == id,
 //@after /for channel_config in send_channels_config\.iter\(\) \{/
             let ghost k1 = it1.index() as int;
             let ghost srel0 = send_reliable_channels@;
